@@ -3,14 +3,19 @@
 # Every line must read exit=1 (replay-confirmed VIOLATION); the table is written to seeded/REGRESSION.md.
 cd /verif
 OUT=seeded/REGRESSION.md
+if [ -z "${RESUME_FROM:-}" ]; then
 echo "# Seeded changes vs. the current checks ($(date -u +%Y-%m-%dT%H:%MZ))" > $OUT.tmp
 echo "" >> $OUT.tmp
 echo "| seeded change | property | exit with the change | seconds | first VIOLATION line |" >> $OUT.tmp
 echo "|---|---|---|---|---|" >> $OUT.tmp
+fi
 [ -z "$(git -C /repo status --short)" ] || { echo "/repo is not clean"; exit 3; }
+# RESUME_FROM=<seed id>: keep the rows already written to $OUT.tmp by an interrupted run and continue with that seed
+SKIP=${RESUME_FROM:+1}
 for d in seeded/*/; do
   id=$(basename $d)
   [ -f $d/patch.diff ] || continue
+  if [ -n "$SKIP" ]; then [ "$id" = "$RESUME_FROM" ] && SKIP="" || continue; fi
   prop=$(python3 -c "import json;print(json.load(open('$d/meta.json'))['property'])")
   git -C /repo apply $PWD/$d/patch.diff || { echo "| $id | $prop | patch does not apply | | |" >> $OUT.tmp; continue; }
   cp evidence/$prop.json /tmp/.evidence-$prop.json 2>/dev/null
